@@ -443,6 +443,75 @@ def exhaustive(tier):
     for warm in (0, 1, 5):
         for n in (1, 4, 40):
             yield {"mode": "fork-iv", "warm": warm, "n": n}
+    # every history of up to four key-file states seen by one long-lived KeyFile object, per method
+    import itertools
+    for method in ("aes", "xor", "best"):
+        for length in (1, 2, 3, 4):
+            for steps in itertools.product(("valid", "short", "missing", "genkey") if length == 4 else ("valid", "short", "long", "missing", "genkey"), repeat=length):
+                yield {"mode": "key-history", "method": method, "steps": list(steps)}
+
+
+def _key_history(case, R):
+    """One long-lived KeyFile object lives through a history of key-file states (between its sessions): after every step
+    that leaves a valid key file, what it encrypts is decrypted by a new object for the same path and the other way
+    round, and what was encrypted under an earlier, different key does not come back as the plaintext."""
+    cc = sandbox._state["cc"]
+    method = case["method"]
+    p = b"inversion across objects and sessions \xff\x00 with some length to it"
+    R.nontrivial = True
+    with sandbox.CaseDir() as d:
+        path = os.path.join(d, "history.key")
+        old = cc.KeyFile(path)
+        earlier = []  # (key, value) encrypted under keys the file held before
+        for n, step in enumerate(case["steps"]):
+            if step == "valid":
+                with open(path, "wb") as fp:
+                    fp.write(bytes((i * 7 + n * 31 + 3) % 256 for i in range(32)))
+            elif step == "short":
+                with open(path, "wb") as fp:
+                    fp.write(b"k" * 31)
+            elif step == "long":
+                with open(path, "wb") as fp:
+                    fp.write(b"k" * 33)
+            elif step == "missing":
+                if os.path.exists(path):
+                    os.unlink(path)
+            else:
+                old.generate_key()
+            good = step in ("valid", "missing", "genkey")
+            try:
+                with old as ctx:
+                    mine = ctx.encrypt(p, method=method)
+                    opened = True
+            except Exception as exc:
+                opened, mine = False, exc
+            if not good:
+                R.check(not opened, "reject", "key-history:malformed", "a session opened on a %s key file" % step)
+                continue
+            where = "step %d (%s) of %r" % (n, step, case["steps"])
+            if not R.check(opened, "invert", "key-history:open", lambda: "at %s the long-lived object could not encrypt: %r" % (where, mine)):
+                return
+            key_now = open(path, "rb").read()
+            try:
+                with cc.KeyFile(path) as fresh:
+                    theirs = fresh.encrypt(p, method=method)
+                    back = fresh.decrypt(mine)
+                with old as ctx:
+                    back2 = ctx.decrypt(theirs)
+                    stale = []
+                    for k, sv in earlier:
+                        if k != key_now:
+                            try:
+                                stale.append(ctx.decrypt(sv))
+                            except Exception:
+                                stale.append(None)
+            except Exception as exc:
+                R.fail("invert", "key-history:raises", "at %s: %r" % (where, exc))
+                return
+            R.check(back == p, "invert", "key-history:new-object-decrypts", lambda: "at %s a new KeyFile decrypts the long-lived object's value to %r" % (where, back))
+            R.check(back2 == p, "invert", "key-history:old-object-decrypts", lambda: "at %s the long-lived object decrypts a new KeyFile's value to %r" % (where, back2))
+            R.check(p not in stale, "wrong-key", "key-history", lambda: "at %s a value encrypted under an earlier, different key still decrypts to the plaintext" % where)
+            earlier.append((key_now, mine))
 
 
 def _fork_iv(case, R):
@@ -483,6 +552,8 @@ def run_case(case, R):
     R.label("mode:" + case["mode"])
     if case["mode"] == "fork-iv":
         return _fork_iv(case, R)
+    if case["mode"] == "key-history":
+        return _key_history(case, R)
     with sandbox.CaseDir() as d:
         if case["mode"] == "aes-blob":
             _aes_blob(case, R, d)
